@@ -244,7 +244,10 @@ def get_pedal_type_from_value(value, evaluate_name=None) -> Type:
             if element_type is not None:
                 return container_type(False, element_type)
             else:
-                return container_type(False, get_pedal_type_from_value(next(iter(value)), evaluate_name))
+                # No single type covers the elements: the container holds any
+                # of their types, and does not pass for a list of the first one
+                return container_type(False, TypeUnion([get_pedal_type_from_value(v, evaluate_name)
+                                                        for v in value]))
         else:
             return container_type(True)
     if isinstance(value, dict):
